@@ -62,6 +62,8 @@ fn main() {
         "C01" => c01,
         "C07" => c07,
         "C09" => c09,
+        "C13" => c13,
+        "C18" => c18,
     );
     std::process::exit(code);
 }
